@@ -930,6 +930,15 @@ impl MachineState {
                     }
                 }
                 (HeapCellValueTag::Str, s) => {
+                    // only a '.'/2 structure is a list cell in disguise.
+                    let (name, arity) = cell_as_atom_cell!(self.heap[s])
+                        .get_name_and_arity();
+
+                    if name != atom!(".") || arity != 2 {
+                        self.fail = true;
+                        break;
+                    }
+
                     let cell = self.store(self.deref(self.heap[s+1]));
 
                     if let Some(d) = cell.as_char() {
